@@ -44,6 +44,9 @@ COMBINATORS = {
     'std::result::Result::<T, E>::is_ok_and':      'res_is_ok_and',    # match r { Ok(x) => f(x), Err(_) => false }
     'std::option::Option::<T>::ok_or_else':        'opt_ok_or_else',   # match o { Some(x) => Ok(x), None => Err(g()) }
     'std::option::Option::<T>::or_else':           'opt_or_else',      # match o { Some(x) => Some(x), None => g() }
+    'std::ops::FnMut::call_mut':                'call_closure',     # f(a, b) for a local closure f: its body, here
+    'std::ops::Fn::call':                       'call_closure',
+    'std::ops::FnOnce::call_once':              'call_closure',
     'std::iter::Iterator::partition':           'partition',        # for x in it { if p(&x) { a.push(x) } else { b.push(x) } }
     'std::vec::Vec::<T, A>::retain':            'retain',           # for x in v.iter() { if !f(x) { <drop x from v> } }   (order kept)
     'std::vec::Vec::<T, A>::retain_mut':        'retain',
@@ -57,6 +60,8 @@ def _closure_of(F, rw, op):
     rv = d[2]['rv']
     if rv['k'] == 'use' and rv['ops'][0]['k'] in ('copy', 'move') and not rv['ops'][0]['pl']['p']:
         return _closure_of(F, rw, rv['ops'][0])
+    if rv['k'] == 'ref' and rv['pl']['p'] in ([], ['*']):
+        return _closure_of(F, rw, {'k': 'copy', 'pl': {'l': rv['pl']['l'], 'p': []}})
     if rv['k'] != 'agg' or not rv['adt'].startswith('closure:'): return None
     cb = F.bodies.get(rv['adt'][8:])
     if cb is None: return None
@@ -251,15 +256,49 @@ def _split_chain(F, rw, N):
     return False
 
 
+def _see_through_moves(F, rw, N):
+    """`let it = xs.iter().filter_map(f); for x in it { .. }`: the adaptor value is moved through a local before
+    `into_iter()`; sa.normalize only looks at an adaptor call directly below.  Point into_iter at the adaptor's result."""
+    from ..normalize import CLOSURE_ADAPTORS
+    for bi, blk in enumerate(rw.blocks):
+        t = blk['term']
+        if blk['cleanup'] or t['k'] != 'call' or t.get('moves_seen') or (t.get('ri') or {}).get('item') != 'into_iter' or not t['args']: continue
+        a = t['args'][0]
+        if a['k'] not in ('copy', 'move') or a['pl']['p']: continue
+        t['moves_seen'] = True
+        cur = a['pl']['l']; hops = 0
+        for _ in range(6):
+            d = rw.single_def(cur)
+            if d is None or d[0] != 'stmt': break
+            rv = d[2]['rv']
+            if rv['k'] == 'use' and rv['ops'][0]['k'] in ('copy', 'move') and not rv['ops'][0]['pl']['p']: cur = rv['ops'][0]['pl']['l']; hops += 1; continue
+            break
+        d = rw.single_def(cur)
+        if hops == 0 or d is None or d[0] != 'call' or (d[2].get('ri') or {}).get('item') not in CLOSURE_ADAPTORS or (d[2].get('ri') or {}).get('trait') != 'std::iter::Iterator': continue
+        t['args'][0] = {'k': 'move', 'pl': {'l': cur, 'p': []}}
+        for b2 in rw.blocks:
+            t2 = b2['term']
+            if t2['k'] == 'call' and (t2.get('ri') or {}).get('item') == 'next' and not t2.get('synthetic'): t2.pop('desugared', None)
+        rw.changed = True
+        for _ in range(10):
+            if not N._desugar_one(rw): break
+        return True
+    return False
+
+
 def _lnorm_one(F, rw, N):
     ENV = _const('()', 'env')
     if _see_through_copies(F, rw, N): return True
+    if _see_through_moves(F, rw, N): return True
     if _split_chain(F, rw, N): return True
     for bi, blk in enumerate(rw.blocks):
         if blk['cleanup']: continue
         t = blk['term']
         if t['k'] != 'call' or t.get('lnormed') or t['t'] < 0: continue
         kind = COMBINATORS.get(t.get('rp') or t.get('fp') or '')
+        if kind is None:
+            cb_ = F.bodies.get(t.get('rp') or t.get('fp') or '')
+            if cb_ is not None and cb_.kind == 'closure': kind = 'call_closure'      # the driver resolves `f(a, b)` on a local closure to its body
         if kind is None: continue
         t['lnormed'] = True
         a = t['args']; dst = t['dst']; after = t['t']; span = t.get('span'); line = (span or {}).get('lo', 0)
@@ -345,6 +384,14 @@ def _lnorm_one(F, rw, N):
             if cls[0] is None: continue
             some = blk_([_agg(dst, 'std::option::Option::Some', [some0], line=line)])
             opt_switch(spl(cls[0], [], dst, after), some)
+        elif kind == 'call_closure':
+            # a local closure called directly (`let mut add = |k, v| ..; add(a, b)`) is an inline helper
+            if len(a) != 2 or cls[0] is not None: pass
+            ci = _closure_of(F, rw, a[0])
+            if ci is None or a[1]['k'] not in ('copy', 'move'): continue
+            n_args = ci[0]['argc'] - 1
+            args = [_payload(a[1], [{'f': str(i), 'of': 'tuple'}]) for i in range(n_args)]
+            rw.goto(bi, rw.splice(ci[0], [ENV] + args, dst, after, span, captures=ci[1]))
         elif kind == 'retain':
             # v.retain(f): every element is visited once, in order; the ones with f(&x) == false are dropped.  The drop is a
             # synthetic call `Vec::<T>::retain_drop(&mut v, x)` so that rules see "this element leaves v" as an effect.
@@ -699,8 +746,9 @@ def holder_of(body, e):
 def coll_root(body, operand):
     """the local collection an iterator / reference operand was made from (`v.iter()`, `&v`, `&mut v`,
     `v.into_iter()`, also when v is a component of a freshly built tuple), else None"""
-    e = T.expr(body, operand)
+    e = through_payload(body, T.expr(body, operand))
     for _ in range(12):
+        if e[0] == 'place' and e[2]: e = through_payload(body, e)
         if e[0] == 'call' and e[3] and (ITER_TRANSPARENT.search(T.strip_generics_tail(e[2])) or T.TRANSPARENT.search(T.strip_generics_tail(e[2]))): e = e[3][0]; continue
         break
     if e[0] == 'call' and len(e) > 4:          # a local collection made by a call (`Vec::new()`, `x.collect()`, `f(..)`)
@@ -810,6 +858,9 @@ def root_of(body, operand):
     if operand['k'] not in ('copy', 'move'): return None
     e = T.expr(body, operand, depth=24)
     for _ in range(24):
+        if e[0] == 'place' and e[2]:
+            e2 = through_payload(body, e)
+            if e2 is not e: e = e2; continue
         if e[0] == 'call' and e[3] and ROOT_TRANSPARENT.search(T.strip_generics_tail(e[2])): e = e[3][0]; continue
         if e[0] == 'proj' and all(T.WRAPPER_OWNER.search(a) for a, f in e[2]): e = e[1]; continue
         break
@@ -943,10 +994,10 @@ def effects_in(ctx, body, region, self_adt, where=None, maps=None, keys=None):
                 e_ = ('acc', target_label(ctx, body, d, maps=maps), rv['op'], facs)
                 eff.add(e_)
                 if e_[1].startswith('entry'):
-                    ent = entry_of(body, T.expr(body, {'k': 'copy', 'pl': d}, depth=10))
+                    ent = entry_of(body, T.expr(body, {'k': 'copy', 'pl': d}, depth=30))
                     if ent is not None: keys.setdefault(e_, set()).add(_key_root(body, ent[0]))
                 elif e_[1].startswith('occupied['):
-                    for y in T.expr_walk(T.expr(body, {'k': 'copy', 'pl': d}, depth=10)):
+                    for y in T.expr_walk(T.expr(body, {'k': 'copy', 'pl': d}, depth=30)):
                         if y[0] == 'call' and y[1] == 'entry': keys.setdefault(e_, set()).add(_key_root(body, y[3][1])); break
         # accumulator updated through temporaries:  acc = tmp  where  tmp = acc (op) x   (e.g. a spliced `fold`)
         if rv['k'] == 'use' and not d['p'] and body.locals[d['l']] == 'f64' and rv['ops'][0]['k'] in ('copy', 'move') and len(body.defs_of(d['l'])) > 1:
@@ -1012,7 +1063,7 @@ def target_label(ctx, body, dst_place, operand=None, maps=None):
     fs, root, calls = T.access_path(body, op, transparent=T.TRANSPARENT_NOCLONE)
     named = [f for a, f in fs if 'v1::' in a]
     if named and root == 1: return 'self.' + named[-1]          # self.constant, also through `let Self { constant, .. } = self`
-    ex = T.expr(body, op, depth=10)
+    ex = T.expr(body, op, depth=30)
     if ex[0] in ('local', 'place') and not (ex[0] == 'place' and ex[2]): return 'acc:_%d' % ex[1]
     ent = entry_of(body, ex)
     if ent is not None:
@@ -1038,6 +1089,9 @@ def _key_root(body, e):
     """the local collection a key expression is (a clone of)"""
     mb = T._mut_borrowed(body)
     for _ in range(8):
+        if e[0] == 'place' and e[2]:
+            e2 = through_payload(body, e)
+            if e2 is not e: e = e2; continue
         if e[0] == 'call' and e[3] and T.TRANSPARENT.search(T.strip_generics_tail(e[2])):
             # a clone that is itself a variable being filled / filtered (`let mut ids = term.ids.clone(); ids.retain(..)`) is the collection
             if len(e) > 4:
